@@ -78,6 +78,9 @@ where
 
 pub struct RefObjects;
 impl SubCheck for RefObjects {
+    fn fuzzable(&self) -> bool {
+        true
+    }
     type Case = SeqCase;
     fn name(&self) -> &'static str {
         "reference_objects"
